@@ -183,7 +183,7 @@ def run(ctx, report, status):
     report.rule = (
         "histories [check p, run p, check p, run p] on one real PandoraMachine (real callbacks, stub step classes): "
         "p ranges over all kind lists up to a length (exhaustive) and random decorated lists biased to legal paths, "
-        "with injected callback failures and 1-3 scales; non-trivial = non-empty pipeline; distinct by (p, scales, injections)"
+        "with injected callback failures and 1-3 scales; plus mixed histories of two pipelines on one machine and histories [check p, run p, run p(, run p)] without a new check between the runs; non-trivial = non-empty pipeline; distinct by (p, scales, injections)"
     )
     rng = ctx.rng
     # corpus first
@@ -214,6 +214,58 @@ def run(ctx, report, status):
         report.count(f"len_{min(len(names), 9)}")
         report.count(f"scales_{effective_scales(names, n)}")
     mixed_history(ctx, report, tbl_run, tbl_check)
+    rerun_history(ctx, report, tbl_run, tbl_check)
+
+
+def rerun_history(ctx, report, tbl_run, tbl_check):
+    """check p, run p, run p, run p on ONE machine, without a new check between the runs (seed C01-5: something the check
+    left on the machine is consumed by the first run).  Every run of the accepted pipeline must succeed with the trace of
+    the first one and leave the machine as the first one left it."""
+    rng = ctx.rng
+    fixed = [["matching_cost", "disparity", "validation.lr"], ["matching_cost.a", "disparity", "validation.x", "filter"],
+             ["matching_cost", "cost_volume_confidence.c", "disparity", "refinement", "validation.1", "multiscale"]]
+    for k in range(ctx.n(120, 1500)):
+        if k < len(fixed):
+            names = fixed[k]
+        else:
+            names = decorate(rng, random_kinds(rng))
+        n = rng.choice([1, 2, 3])
+        ops = [{"op": "check", "names": names, "outcomes": []}]
+        ops += [{"op": "run", "names": names, "num_scales": effective_scales(names, n)} for _ in range(rng.randrange(2, 4))]
+        check_rerun(ctx, report, ops, tbl_run, tbl_check)
+
+
+def is_rerun_history(ops):
+    return len(ops) >= 3 and ops[0]["op"] == "check" and all(o["op"] == "run" for o in ops[1:])
+
+
+def check_rerun(ctx, report, ops, tbl_run, tbl_check):
+    names = ops[0]["names"]
+    impl = ms.run_history(ops)
+    model = ctx.lean.call("C01.history", tbl_check=tbl_check, tbl_run=tbl_run, ops=ops)
+    report.case(key=("rerun", json.dumps(ops)), nontrivial=bool(names))
+    if impl[0].get("res") != "ok":
+        return
+    report.hit("second_call_identical:run_after_run")
+    first = impl[1]
+    for i in range(1, len(ops)):
+        a, b = impl[i], model[i]
+        case = {"ops": ops, "index": i}
+        if a.get("skipped") or b.get("skipped"):
+            break
+        if (a["res"], a["trace"]) != (b["res"], b["trace"]):
+            report.disagree("rerun.run", case, {"res": a["res"], "trace": a["trace"]}, {"res": b["res"], "trace": b["trace"]})
+        report.hit("run_no_error")
+        if a["res"] != "ok":
+            report.fail("run_no_error", "accepted_pipeline_raises_on_a_later_run", case, a)
+            break
+        if a["trace"] != b["spec_trace"]:
+            report.fail("trace_once_per_scale_in_order", "run_trace", case, a,
+                        "run callbacks differ from: each step once per processed scale, in order, left then right")
+        if i > 1 and (a["res"], a["trace"], a["machine"]) != (first["res"], first["trace"], first["machine"]):
+            report.fail("second_call_identical", "run_after_run_differs", case, a)
+        if a["machine"]["state"] != "begin" or a["machine"]["triggers"]:
+            report.fail("after_run_initial", "leftover", case, a)
 
 
 def mixed_history(ctx, report, tbl_run, tbl_check):
@@ -232,25 +284,33 @@ def mixed_history(ctx, report, tbl_run, tbl_check):
             n = rng.choice([1, 2, 3])
             ops.append({"op": "check", "names": names, "outcomes": []})
             ops.append({"op": "run", "names": names, "num_scales": effective_scales(names, n)})
-        impl = ms.run_history(ops)
-        model = ctx.lean.call("C01.history", tbl_check=tbl_check, tbl_run=tbl_run, ops=ops)
-        report.case(key=("mixed", json.dumps(ops)), nontrivial=True)
-        for i, (op, a, b) in enumerate(zip(ops, impl, model)):
-            if a.get("skipped") or b.get("skipped"):
-                break
-            case = {"ops": ops, "index": i}
-            if (a["res"], a["trace"]) != (b["res"], b["trace"]):
-                report.disagree(f"mixed.{op['op']}", case, {"res": a["res"], "trace": a["trace"]}, {"res": b["res"], "trace": b["trace"]})
-            if a["res"] == "ok" and op["op"] == "run":
-                report.hit("trace_once_per_scale_in_order:mixed_history")
-                if a.get("foreign_config"):
-                    report.fail("trace_once_per_scale_in_order", "step_object_from_another_configuration", case, a,
-                                f"steps executed with a step object built from another step's configuration: {a['foreign_config']}")
-                # the right products are governed by the pipeline that was checked last
-                if a["trace"] != b["spec_trace"] and not b["machine"]["right_disp_map"]:
-                    report.fail("trace_once_per_scale_in_order", "run_trace", case, a)
-            if a["res"] != "ok":
-                break
+        check_mixed(ctx, report, ops, tbl_run, tbl_check)
+
+
+def is_mixed_history(ops):
+    return any(o["names"] != ops[0]["names"] for o in ops)
+
+
+def check_mixed(ctx, report, ops, tbl_run, tbl_check):
+    impl = ms.run_history(ops)
+    model = ctx.lean.call("C01.history", tbl_check=tbl_check, tbl_run=tbl_run, ops=ops)
+    report.case(key=("mixed", json.dumps(ops)), nontrivial=True)
+    for i, (op, a, b) in enumerate(zip(ops, impl, model)):
+        if a.get("skipped") or b.get("skipped"):
+            break
+        case = {"ops": ops, "index": i}
+        if (a["res"], a["trace"]) != (b["res"], b["trace"]):
+            report.disagree(f"mixed.{op['op']}", case, {"res": a["res"], "trace": a["trace"]}, {"res": b["res"], "trace": b["trace"]})
+        if a["res"] == "ok" and op["op"] == "run":
+            report.hit("trace_once_per_scale_in_order:mixed_history")
+            if a.get("foreign_config"):
+                report.fail("trace_once_per_scale_in_order", "step_object_from_another_configuration", case, a,
+                            f"steps executed with a step object built from another step's configuration: {a['foreign_config']}")
+            # the right products are governed by the pipeline that was checked last
+            if a["trace"] != b["spec_trace"] and not b["machine"]["right_disp_map"]:
+                report.fail("trace_once_per_scale_in_order", "run_trace", case, a)
+        if a["res"] != "ok":
+            break
 
 
 def decorate_plain(kinds):
@@ -290,7 +350,12 @@ def replay(ctx, report, path):
         data = json.load(f)
     tbl_run, tbl_check = live_tables()
     ops = data["input"]["ops"] if "input" in data else data["ops"]
-    check_case(ctx, report, ops, tbl_run, tbl_check, "replay")
+    if is_mixed_history(ops):
+        check_mixed(ctx, report, ops, tbl_run, tbl_check)
+    elif is_rerun_history(ops):
+        check_rerun(ctx, report, ops, tbl_run, tbl_check)
+    else:
+        check_case(ctx, report, ops, tbl_run, tbl_check, "replay")
     for fl in report.failures:
         print("spec failure:", fl["clause"], fl["trigger"], json.dumps(fl["case"])[:400])
     for d in report.disagreements:
